@@ -322,9 +322,10 @@ def unescByteChar (d : Char) : Option Nat :=
   if d = '\'' then some 39 else if d = '\\' then some 92 else if d = 't' then some 9
   else if d = 'n' then some 10 else if d = 'r' then some 13 else none
 
-/-- Python's lexing of the body of a single-quoted `bytes` literal, for the escapes `repr(bytes)`
-emits; a raw quote, a raw non-printable or non-ASCII character is `none` -/
-def unescapeBytes : List Char → Option (List Nat)
+/-- Python's lexing of the body of a single-quoted (`tri = false`) or triple-quoted `bytes` literal,
+for the escapes `repr(bytes)` emits; a raw quote, a raw non-printable (other than the newline of the
+triple-quoted form) or non-ASCII character is `none` -/
+def unescapeBytes (tri : Bool) : List Char → Option (List Nat)
   | [] => some []
   | c :: rest =>
     if c = '\\' then
@@ -334,46 +335,48 @@ def unescapeBytes : List Char → Option (List Nat)
         if d = 'x' then
           match rest' with
           | h1 :: h2 :: rest'' =>
-            match unhex h1, unhex h2, unescapeBytes rest'' with
+            match unhex h1, unhex h2, unescapeBytes tri rest'' with
             | some a, some b, some xs => some ((a * 16 + b) :: xs)
             | _, _, _ => none
           | _ => none
         else
-          match unescByteChar d, unescapeBytes rest' with
+          match unescByteChar d, unescapeBytes tri rest' with
           | some x, some xs => some (x :: xs)
           | _, _ => none
+    else if c = '\n' ∧ tri = true then (unescapeBytes tri rest).map (10 :: ·)
     else if c = '\'' ∨ c.toNat < 32 ∨ c.toNat ≥ 127 then none
-    else (unescapeBytes rest).map (c.toNat :: ·)
+    else (unescapeBytes tri rest).map (c.toNat :: ·)
 
 theorem hex_facts : ∀ c : Fin 256,
     unhex (hexDigit (c.val / 16 % 16)) = some (c.val / 16 % 16) ∧
     unhex (hexDigit (c.val % 16)) = some (c.val % 16) := by decide +kernel
 
 theorem printable_facts : ∀ c : Fin 256, 32 ≤ c.val → c.val < 127 → c.val ≠ 39 → c.val ≠ 92 →
-    (Char.ofNat c.val ≠ '\\' ∧ Char.ofNat c.val ≠ '\'' ∧ (Char.ofNat c.val).toNat = c.val) := by
+    (Char.ofNat c.val ≠ '\\' ∧ Char.ofNat c.val ≠ '\'' ∧ (Char.ofNat c.val).toNat = c.val ∧
+      Char.ofNat c.val ≠ '\n') := by
   decide +kernel
 
-theorem unescape_escapeByte (c : Nat) (hc : c < 256) (rest : List Char) :
-    unescapeBytes (bytesEscapeByte 39 c ++ rest) = (unescapeBytes rest).map (c :: ·) := by
+theorem unescape_escapeByte (tri : Bool) (c : Nat) (hc : c < 256) (rest : List Char) :
+    unescapeBytes tri (bytesEscapeByte 39 c ++ rest) = (unescapeBytes tri rest).map (c :: ·) := by
   unfold bytesEscapeByte
   split
   · next h =>
     have h' : c = 39 ∨ c = 92 := by simpa using h
     rcases h' with h | h <;> subst h <;>
-      (rw [unescapeBytes.eq_def]; simp [unescByteChar]; cases unescapeBytes rest <;> rfl)
+      (rw [unescapeBytes.eq_def]; simp [unescByteChar]; cases unescapeBytes tri rest <;> rfl)
   split
-  · next h => subst h; rw [unescapeBytes.eq_def]; simp [unescByteChar]; cases unescapeBytes rest <;> rfl
+  · next h => subst h; rw [unescapeBytes.eq_def]; simp [unescByteChar]; cases unescapeBytes tri rest <;> rfl
   split
-  · next h => subst h; rw [unescapeBytes.eq_def]; simp [unescByteChar]; cases unescapeBytes rest <;> rfl
+  · next h => subst h; rw [unescapeBytes.eq_def]; simp [unescByteChar]; cases unescapeBytes tri rest <;> rfl
   split
-  · next h => subst h; rw [unescapeBytes.eq_def]; simp [unescByteChar]; cases unescapeBytes rest <;> rfl
+  · next h => subst h; rw [unescapeBytes.eq_def]; simp [unescByteChar]; cases unescapeBytes tri rest <;> rfl
   split
   · next h =>
     have hf := hex_facts ⟨c, hc⟩
     simp only at hf
     have e : c / 16 % 16 * 16 + c % 16 = c := by omega
     rw [unescapeBytes.eq_def]; simp [hf.1, hf.2]
-    cases unescapeBytes rest <;> simp [e]
+    cases unescapeBytes tri rest <;> simp [e]
   · next h1 h2 h3 h4 h5 =>
     have h1' : c ≠ 39 ∧ c ≠ 92 := by simpa using h1
     have h5' : 32 ≤ c ∧ c < 127 := by
@@ -381,18 +384,18 @@ theorem unescape_escapeByte (c : Nat) (hc : c < 256) (rest : List Char) :
       omega
     have hp := printable_facts ⟨c, hc⟩ h5'.1 h5'.2 h1'.1 h1'.2
     simp only at hp
-    obtain ⟨p1, p2, p3⟩ := hp
+    obtain ⟨p1, p2, p3, p4⟩ := hp
     have h32 : ¬ c < 32 := by omega
     have h127 : ¬ c ≥ 127 := by omega
-    rw [unescapeBytes.eq_def]; simp [p1, p2, p3, h32, h127]
+    rw [unescapeBytes.eq_def]; simp [p1, p2, p3, p4, h32, h127]
 
-theorem unescape_flatMap (l : List Nat) (hl : ∀ x ∈ l, x < 256) :
-    unescapeBytes (l.flatMap (bytesEscapeByte 39)) = some l := by
+theorem unescape_flatMap (tri : Bool) (l : List Nat) (hl : ∀ x ∈ l, x < 256) :
+    unescapeBytes tri (l.flatMap (bytesEscapeByte 39)) = some l := by
   induction l with
   | nil => simp [unescapeBytes]
   | cons c l ih =>
     simp only [List.flatMap_cons]
-    rw [unescape_escapeByte c (hl c (by simp)), ih (fun x hx => hl x (by simp [hx]))]; rfl
+    rw [unescape_escapeByte tri c (hl c (by simp)), ih (fun x hx => hl x (by simp [hx]))]; rfl
 
 theorem escapeQuotes_facts : ∀ c : Fin 256, c.val ≠ 34 →
     escapeQuotes (bytesEscapeByte 34 c.val) = bytesEscapeByte 39 c.val := by
@@ -430,18 +433,18 @@ theorem bytesEscape_eq (b : List Nat) (hb : ∀ x ∈ b, x < 256) :
 /-- **Pyval.bytes_roundtrip**: for every bytes value, Python's lexing of `b'` + `_bytes_escape(b)` +
 `'` gives back the value (full since 257fc5a) -/
 theorem bytes_roundtrip (b : List Nat) (hb : ∀ x ∈ b, x < 256) :
-    unescapeBytes (bytesEscape b) = some b := by
+    unescapeBytes false (bytesEscape b) = some b := by
   rw [bytesEscape_eq b hb]
-  exact unescape_flatMap b hb
+  exact unescape_flatMap false b hb
 
-example : unescapeBytes (bytesEscape [97, 34, 39, 0, 255, 10]) = some [97, 34, 39, 0, 255, 10] := by
+example : unescapeBytes false (bytesEscape [97, 34, 39, 0, 255, 10]) = some [97, 34, 39, 0, 255, 10] := by
   decide
 example : bytesEscape [105, 116, 39, 115] = "it\\'s".toList := by decide
 
 /-- HISTORICAL (before 257fc5a): `b"it's"` was displayed as `b'it's'` -/
 theorem bytes_roundtrip_old_counterexample :
     bytesEscapeOld [105, 116, 39, 115] = "it's".toList ∧
-    unescapeBytes (bytesEscapeOld [105, 116, 39, 115]) = none := by decide
+    unescapeBytes false (bytesEscapeOld [105, 116, 39, 115]) = none := by decide
 
 /-- docutils removes NUL characters from `Text` nodes; since e938da2 `_str_escape` never emits one … -/
 theorem strEscape_no_nul (s : List Char) : Char.ofNat 0 ∉ strEscape s := by
@@ -1767,6 +1770,51 @@ theorem render_use_independent (T : PrecTable) (before after before' after' : Li
 example : renderUses LT [.binary .bitAnd (.name ['F']) (.binary .bitOr (.name ['R']) (.name ['W'])),
       .binary .bitOr (.name ['R']) (.name ['W'])] = ["F&(R|W)".toList, "R|W".toList] := by decide +kernel
 
+/-! ## 4b. values assembled by the builder: `X = first; X op= rhs; …` -/
+
+/-- the expression Python computes for `X = first` followed by `X op= rhs` statements -/
+def augFold (first : Expr) (steps : List (BOp × Expr)) : Expr :=
+  steps.foldl (fun acc s => .binary s.1 acc s.2) first
+
+/-- `_storeAttrValue` over a plain assignment followed by augmented assignments stores exactly that
+expression (left-nested `BinOp`s, in statement order) -/
+theorem storeAll_aug (first : Expr) (steps : List (BOp × Expr)) :
+    storeAll none ((none, first) :: steps.map (fun s => (some s.1, s.2))) = some (augFold first steps) := by
+  simp only [storeAll, storeAttrValue]
+  induction steps generalizing first with
+  | nil => simp [storeAll, augFold]
+  | cons s rest ih =>
+    simp only [List.map_cons, storeAll, storeAttrValue, augFold, List.foldl_cons]
+    exact ih (.binary s.1 first s.2)
+
+theorem okTree_augFold (first : Expr) (steps : List (BOp × Expr))
+    (h1 : okTree LT false first = true) (h2 : ∀ s ∈ steps, okTree LT false s.2 = true) :
+    okTree LT false (augFold first steps) = true := by
+  induction steps generalizing first with
+  | nil => simpa [augFold] using h1
+  | cons s rest ih =>
+    simp only [augFold, List.foldl_cons]
+    exact ih (.binary s.1 first s.2) (by simp [okTree, h1, h2 s (by simp)])
+      (fun x hx => h2 x (by simp [hx]))
+
+/-- **Pyval.aug_value_reads_back**: the value the builder stores for `X = first; X op₁= r₁; …` is
+displayed as a text that Python reads back as `((first op₁ r₁) op₂ r₂) …` — the parentheses the
+statement boundaries stood for are written (`SIZE = BASE + 1; SIZE *= 2` → `(BASE+1)*2`) -/
+theorem aug_value_reads_back (first : Expr) (steps : List (BOp × Expr))
+    (h1 : okTree LT false first = true) (h2 : ∀ s ∈ steps, okTree LT false s.2 = true) :
+    ∃ v, storeAll none ((none, first) :: steps.map (fun s => (some s.1, s.2))) = some v ∧
+      ∃ d : Doc, d.flatten = render LT v ∧ parseDoc 1 d = some (canon (augFold first steps)) := by
+  refine ⟨_, storeAll_aug first steps, ?_⟩
+  exact render_groups_partial _ (okTree_augFold first steps h1 h2)
+
+example :
+    (storeAll none [(none, .binary .add (.name "BASE".toList) (.constInt 1)), (some .mult, .constInt 2)]).map (render LT)
+      = some "(BASE+1)*2".toList ∧
+    (storeAll none [(none, .constInt 100), (some .sub, .binary .sub (.name ['a']) (.name ['b']))]).map (render LT)
+      = some "100-(a-b)".toList ∧
+    storeAll none [(some .add, .constInt 1)] = none := by
+  refine ⟨?_, ?_, ?_⟩ <;> decide +kernel
+
 /-! ## 5. line wrapping and truncation are marked
 
 `unwrap` removes the continuation markers from a result list: every `LINEWRAP` item together with
@@ -2522,5 +2570,303 @@ example :
     (match colorize LT (Cfg.make 0 1 false) (.constStr [Char.ofNat 0, 'a']) with
       | .ok r => (r.isComplete, itemsText r.items)
       | .error _ => (false, [])) = (true, "'\\x00a'".toList) := by decide +kernel
+
+/-! ## 6. what a cut result shows (`_trim_result`, the `...` marker) -/
+
+theorem astext_no_nul (s : List Char) : Char.ofNat 0 ∉ astext s := by
+  unfold astext
+  intro h
+  simp [List.mem_filter] at h
+
+theorem astext_take (s : List Char) (k : Nat) : astext ((astext s).take k) = (astext s).take k :=
+  astext_id _ (fun h => astext_no_nul s (List.mem_of_mem_take h))
+
+theorem dropLastPy_prefix (t : Nat) (l : List Char) : dropLastPy t l <+: l := by
+  unfold dropLastPy
+  split
+  · exact List.nil_prefix
+  · exact List.take_prefix _ _
+
+theorem astext_dropLastPy (t : Nat) (s : List Char) :
+    astext (dropLastPy t (astext s)) = dropLastPy t (astext s) := by
+  unfold dropLastPy
+  split
+  · simp [astext, dropPair]
+  · exact astext_take s _
+
+/-- the displayed text of a reversed item list (last item first) -/
+def textRev (rev : List Item) : List Char := itemsText rev.reverse
+
+theorem textRev_cons (it : Item) (rev : List Item) : textRev (it :: rev) = textRev rev ++ it.astext := by
+  simp [textRev, itemsText]
+
+/-- **`_trim_result` only removes characters from the end**: what is displayed after trimming is a
+prefix of what was displayed before -/
+theorem trimResult_prefix : ∀ (fuel : Nat) (rev : List Item) (n : Nat),
+    textRev (trimResult fuel rev n) <+: textRev rev
+  | 0, rev, n => by simp [trimResult]
+  | fuel + 1, rev, 0 => by simp [trimResult]
+  | fuel + 1, [], n + 1 => by simp [trimResult]
+  | fuel + 1, it :: rev, n + 1 => by
+    have pre : ∀ m, textRev (trimResult fuel rev m) <+: textRev (it :: rev) := fun m =>
+      (trimResult_prefix fuel rev m).trans (by rw [textRev_cons]; exact List.prefix_append _ _)
+    cases it with
+    | wbr => simpa [trimResult] using pre (n + 1)
+    | newline => simpa [trimResult] using pre n
+    | elem k s =>
+      simp only [trimResult]
+      split
+      · exact pre _
+      · split
+        · exact pre _
+        · refine (trimResult_prefix fuel _ _).trans ?_
+          rw [textRev_cons, textRev_cons]
+          simp only [Item.astext, astext_dropLastPy]
+          exact (List.prefix_append_right_inj _).2 (dropLastPy_prefix _ _)
+    | text s =>
+      simp only [trimResult]
+      split
+      · exact pre _
+      · refine (trimResult_prefix fuel _ _).trans ?_
+        rw [textRev_cons, textRev_cons]
+        simp only [Item.astext, astext_dropLastPy]
+        exact (List.prefix_append_right_inj _).2 (dropLastPy_prefix _ _)
+
+/-- **a cut result shows what had been written, minus at most the trimmed tail, plus the marker**:
+the displayed text is a prefix of the text accumulated when `_Maxlines`/`_Linebreak` was raised,
+followed by `...` (on its own line when line breaks are allowed) -/
+theorem cut_shows_written (cfg : Cfg) (p : Prog) (r : Colorized)
+    (h : colorizeProg cfg p = .ok r) (hc : r.isComplete = false) :
+    ∃ e st, exec cfg 0 p ⟨[], 0, 1, cfg.linebreakok⟩ = .error (e, st) ∧
+      ∃ q, q <+: itemsText st.result ∧
+        itemsText r.items = q ++ (if cfg.linebreakok then "\n...".toList else "...".toList) := by
+  unfold colorizeProg at h
+  simp only at h
+  cases hr : exec cfg 0 p ⟨[], 0, 1, cfg.linebreakok⟩ with
+  | ok st => rw [hr] at h; simp at h; subst h; simp at hc
+  | error x =>
+    obtain ⟨e, st⟩ := x
+    rw [hr] at h
+    simp only at h
+    refine ⟨e, st, rfl, ?_⟩
+    split at h
+    · split at h
+      · next hlb =>
+        simp only [Except.ok.injEq] at h; subst h
+        refine ⟨itemsText st.result, List.prefix_rfl, ?_⟩
+        simp [itemsText, hlb, Item.astext, ellipsisItem, astext, dropPair]
+      · next hlb =>
+        split at h
+        · simp at h
+        · next last rev hrev =>
+          simp only [Except.ok.injEq] at h; subst h
+          have hst : itemsText st.result = textRev (last :: rev) := by
+            rw [textRev, ← hrev, List.reverse_reverse]
+          refine ⟨textRev (trimResult ((if last = linewrapItem then rev else last :: rev).length + 3)
+            (if last = linewrapItem then rev else last :: rev) 3), ?_, ?_⟩
+          · refine (trimResult_prefix _ _ _).trans ?_
+            rw [hst]
+            split
+            · rw [textRev_cons]; exact List.prefix_append _ _
+            · exact List.prefix_rfl
+          · simp [itemsText, textRev, hlb, Item.astext, ellipsisItem, astext, dropPair]
+    · simp at h
+
+
+/-! ## 7. the multi-line form of a bytes constant -/
+
+theorem splitOnNat_ne_nil (sep : Nat) (b : List Nat) : splitOnNat sep b ≠ [] := by
+  cases b with
+  | nil => simp [splitOnNat]
+  | cons c cs =>
+    simp only [splitOnNat]
+    split
+    · simp
+    · split <;> simp
+
+theorem mem_splitOnNat (sep : Nat) : ∀ (b : List Nat) (l : List Nat), l ∈ splitOnNat sep b → ∀ x ∈ l, x ∈ b
+  | [], l, hl, x, hx => by simp [splitOnNat] at hl; subst hl; simp at hx
+  | c :: cs, l, hl, x, hx => by
+    simp only [splitOnNat] at hl
+    have ih := mem_splitOnNat sep cs
+    cases h : splitOnNat sep cs with
+    | nil => exact absurd h (splitOnNat_ne_nil sep cs)
+    | cons l0 ls =>
+      rw [h] at hl ih
+      simp only at hl
+      split at hl
+      · simp only [List.mem_cons] at hl
+        rcases hl with rfl | rfl | hl
+        · simp at hx
+        · exact List.mem_cons_of_mem _ (ih _ (by simp) x hx)
+        · exact List.mem_cons_of_mem _ (ih _ (by simp [hl]) x hx)
+      · simp only [List.mem_cons] at hl
+        rcases hl with rfl | hl
+        · simp only [List.mem_cons] at hx
+          rcases hx with rfl | hx
+          · simp
+          · exact List.mem_cons_of_mem _ (ih _ (by simp) x hx)
+        · exact List.mem_cons_of_mem _ (ih _ (by simp [hl]) x hx)
+
+/-- what `_colorize_str` writes between the triple quotes of a bytes value -/
+def bytesTriBody (b : List Nat) : List Char := joinSep ['\n'] ((splitOnNat 10 b).map bytesEscape)
+
+theorem bytesTri_eq (b : List Nat) :
+    joinSep ['\n'] ((splitOnNat 10 b).map (fun l => l.flatMap (bytesEscapeByte 39))) =
+      b.flatMap (fun c => if c = 10 then ['\n'] else bytesEscapeByte 39 c) := by
+  induction b with
+  | nil => simp [splitOnNat, joinSep]
+  | cons c cs ih =>
+    simp only [splitOnNat]
+    cases h : splitOnNat 10 cs with
+    | nil => exact absurd h (splitOnNat_ne_nil 10 cs)
+    | cons l ls =>
+      rw [h] at ih
+      by_cases hc : c = 10
+      · subst hc
+        simp only [if_true, List.map_cons, List.flatMap_cons, List.flatMap_nil]
+        rw [joinSep_cons_cons, ← List.map_cons, ih]
+        simp
+      · simp only [hc, if_false, List.map_cons, List.flatMap_cons]
+        rw [joinSep_append_head, ← List.map_cons, ih]
+
+theorem unescapeBytes_rawNl (rest : List Char) :
+    unescapeBytes true ('\n' :: rest) = (unescapeBytes true rest).map (10 :: ·) := by
+  rw [unescapeBytes.eq_def]; simp
+
+/-- the multi-line (triple-quoted, per-line escaped) form of a bytes value lexes back to the value -/
+theorem bytes_roundtrip_lines (b : List Nat) (hb : ∀ x ∈ b, x < 256) :
+    unescapeBytes true (bytesTriBody b) = some b := by
+  unfold bytesTriBody
+  have hmap : (splitOnNat 10 b).map bytesEscape =
+      (splitOnNat 10 b).map (fun l => l.flatMap (bytesEscapeByte 39)) := by
+    apply List.map_congr_left
+    intro l hl
+    exact bytesEscape_eq l (fun x hx => hb x (mem_splitOnNat 10 b l hl x hx))
+  rw [hmap, bytesTri_eq]
+  clear hmap
+  induction b with
+  | nil => simp [unescapeBytes]
+  | cons c cs ih =>
+    simp only [List.flatMap_cons]
+    by_cases hc : c = 10
+    · subst hc
+      simp only [if_true, List.cons_append, List.nil_append]
+      rw [unescapeBytes_rawNl, ih (fun x hx => hb x (by simp [hx]))]; rfl
+    · simp only [hc, if_false]
+      rw [unescape_escapeByte true c (hb c (by simp)), ih (fun x hx => hb x (by simp [hx]))]; rfl
+
+example : bytesTriBody [34, 10, 39] = "\"\n\\'".toList := by decide
+
+
+/-! ## 8. the display of a string constant, end to end -/
+
+theorem spellsL_append (lb : Bool) (a b : List Prog) (t : List Char) :
+    SpellsL lb (a ++ b) t ↔ ∃ u v, SpellsL lb a u ∧ SpellsL lb b v ∧ t = u ++ v := by
+  induction a generalizing t with
+  | nil => simp [SpellsL]
+  | cons p ps ih =>
+    simp only [List.cons_append, SpellsL]
+    constructor
+    · rintro ⟨u, v, hu, hv, rfl⟩
+      obtain ⟨v1, v2, h1, h2, rfl⟩ := (ih v).1 hv
+      exact ⟨u ++ v1, v2, ⟨u, v1, hu, h1, rfl⟩, h2, by simp⟩
+    · rintro ⟨u, v, ⟨u1, u2, hu1, hu2, rfl⟩, hv, rfl⟩
+      exact ⟨u1, u2 ++ v, hu1, (ih _).2 ⟨u2, v, hu2, hv, rfl⟩, by simp⟩
+
+theorem spellsL_linesProg (lb first : Bool) (ls : List (List Char)) (t : List Char) :
+    SpellsL lb (linesProg first ls) t →
+      t = (if first || ls.isEmpty then [] else ['\n']) ++ joinSep ['\n'] ls := by
+  induction ls generalizing first t with
+  | nil => simp [linesProg, SpellsL, joinSep]
+  | cons l rest ih =>
+    intro h
+    rw [linesProg, spellsL_append, ] at h
+    obtain ⟨u, v, hu, hv, rfl⟩ := h
+    rw [spellsL_append] at hu
+    obtain ⟨u1, u2, h1, h2, rfl⟩ := hu
+    have e2 : u2 = l := by simpa [SpellsL, Spells] using h2
+    have ev := ih false v hv
+    have e1 : u1 = if first then [] else ['\n'] := by
+      cases first <;> simpa [SpellsL, Spells] using h1
+    subst e2; rw [e1, ev]
+    cases rest with
+    | nil => cases first <;> simp [joinSep]
+    | cons r rs => cases first <;> simp [joinSep]
+
+/-- the quote `_colorize_str` picks -/
+def strQuote (lb : Bool) (s : List Char) : List Char :=
+  if lb && s.contains '\n' then ['\'', '\'', '\''] else ['\'']
+
+/-- every complete spelling of a string constant: quote, body, quote — the body being the escaped
+string, or with line breaks allowed the per-line escaped form (`triBody`) -/
+theorem spells_strProg (lb : Bool) (s t : List Char) (h : Spells lb (strProg s) t) :
+    t = strQuote lb s ++ (if lb then triBody s else strEscape s) ++ strQuote lb s := by
+  unfold strProg at h
+  cases lb with
+  | false =>
+    simp only [Spells, Bool.false_eq_true, if_false, SpellsL] at h
+    obtain ⟨u1, v1, h1, ⟨u2, v2, h2, ⟨u3, v3, h3, ⟨u4, v4, h4, h5, rfl⟩, rfl⟩, rfl⟩, rfl⟩ := h
+    subst h1 h2 h3 h4 h5
+    simp [strQuote]
+  | true =>
+    simp only [Spells, if_true] at h
+    rw [spellsL_append] at h
+    obtain ⟨u, v, hu, hv, rfl⟩ := h
+    rw [spellsL_append] at hu
+    obtain ⟨u1, u2, h1, h2, rfl⟩ := hu
+    have e2 := spellsL_linesProg true true _ _ h2
+    simp only [SpellsL, Spells] at h1 hv
+    obtain ⟨a1, b1, ha1, ⟨a2, b2, ha2, hb2, rfl⟩, rfl⟩ := h1
+    obtain ⟨a3, b3, ha3, hb3, rfl⟩ := hv
+    subst ha1 ha2 hb2 ha3 hb3
+    rw [e2]
+    simp [strQuote, triBody]
+
+/-- **the display of a string constant lexes back to the string, in every configuration**: any
+complete spelling is an opening quote, a body and the same closing quote, and Python's lexing of the
+body (single- or triple-quoted accordingly) is the string -/
+theorem str_display_roundtrip (lb : Bool) (s t : List Char) (h : Spells lb (strProg s) t) :
+    ∃ body, t = strQuote lb s ++ body ++ strQuote lb s ∧
+      unescapeStr (lb && s.contains '\n') body = some s := by
+  refine ⟨_, spells_strProg lb s t h, ?_⟩
+  cases lb with
+  | false => simpa using str_roundtrip s
+  | true =>
+    simp only [if_true, Bool.true_and]
+    by_cases hn : s.contains '\n' = true
+    · rw [hn]; exact str_roundtrip_lines s
+    · have hn' : s.contains '\n' = false := by simpa using hn
+      rw [hn']
+      -- no newline: one line, the triple-quote body is the plain escaped string
+      have hgen : ∀ l : List Char, (∀ c ∈ l, c ≠ '\n') →
+          l.flatMap (fun c => if c = '\n' then ['\n'] else strEscapeChar c) = l.flatMap strEscapeChar := by
+        intro l hl
+        induction l with
+        | nil => rfl
+        | cons c cs ih =>
+          simp only [List.flatMap_cons]
+          rw [ih (fun x hx => hl x (by simp [hx]))]
+          simp [hl c (by simp)]
+      have : triBody s = strEscape s := by
+        rw [triBody_eq]
+        exact hgen s (fun c hc e => by
+          subst e
+          have : s.contains '\n' = true := by simpa using hc
+          rw [this] at hn'; exact absurd hn' (by simp))
+      rw [this]; exact str_roundtrip s
+
+
+/-- **Pyval.str_constant_display**: for every line length, line count and `linebreakok`: when a string
+constant is displayed completely, then — continuation markers removed — it is a quoted body that
+Python lexes back to the string -/
+theorem str_constant_display (T : PrecTable) (linelen maxlines : Nat) (lb : Bool) (s : List Char)
+    (r : Colorized) (h : colorize T (Cfg.make linelen maxlines lb) (.constStr s) = .ok r)
+    (hc : r.isComplete = true) :
+    ∃ body, unwrap r.items = strQuote lb s ++ body ++ strQuote lb s ∧
+      unescapeStr (lb && s.contains '\n') body = some s := by
+  have hw := (wrap_marked T linelen maxlines lb (.constStr s) r h).2 hc
+  have hs : Spells lb (strProg s) (unwrap r.items) := by simpa [compile] using hw.1
+  exact str_display_roundtrip lb s _ hs
 
 end Pyval
